@@ -361,7 +361,10 @@ class _BoostMatrixImplementation(NumPyPrintable):
     _latex_repr_ = R"\boldsymbol{{B}}\left({momentum}\right)"
 
     def _numpycode(self, printer: NumPyPrinter, *args) -> str:
-        _, b00, b01, b02, b03, b11, b12, b13, b22, b23, b33 = self.args
+        printer.module_imports[printer._module].add("array")
+        _, b00, b01, b02, b03, b11, b12, b13, b22, b23, b33 = map(
+            printer._print, self.args
+        )
         return f"""array(
             [
                 [{b00}, {b01}, {b02}, {b03}],
